@@ -145,6 +145,33 @@ def pv2(m, run, piv=None):
                            'permuted matrix used together with %s' % used_c, site(fi, n))
 
 
+def pv5(m, run, piv=None):
+    """PV5: the routines that are specified as LU with partial pivoting (lu_factor, and the inverse and determinant built on it) reach a
+    call of matrix_pivot on every path to a normal return.  Exact arithmetic cannot tell a factorisation without row exchanges from one
+    with them (both satisfy A x = b exactly whenever no pivot is zero); in floating point the first loses every digit on a tiny pivot, so
+    the row exchange is what makes 'the result satisfies A x = b' true - a necessary structural condition, decided on the CFG"""
+    from ..cfg import CFG
+    piv = piv or m.func('linalg.matrix_pivot')
+    n = 0
+    for key in ('linalg.lu_factor', 'linalg.matrix_inverse', 'linalg.matrix_determinant'):
+        if key not in m.funcs:
+            continue
+        fi = m.func(key)
+        calls = [c_ for c_ in walk_no_nested(fi.node) if isinstance(c_, ast.Call) and isinstance(c_.func, (ast.Name, ast.Attribute)) and m.resolve_callable(fi.mod, c_.func) is piv]
+        # a routine that delegates the whole job to another pivoting routine on every path is fine too
+        deleg = [c_ for c_ in walk_no_nested(fi.node) if isinstance(c_, ast.Call) and isinstance(c_.func, (ast.Name, ast.Attribute))
+                 and getattr(m.resolve_callable(fi.mod, c_.func), 'key', None) in ('linalg.lu_factor', 'linalg.matrix_inverse') and m.resolve_callable(fi.mod, c_.func) is not fi]
+        marks = calls + deleg
+        cfg = CFG(fi.node)
+        ok = bool(marks) and cfg.must_pass(lambda nd: any(x is mk for mk in marks for x in ast.walk(nd.ast)))
+        n += 1
+        run.ob('PV5.pivoting-on-every-path', fi.key, ok, 'every path to a result exchanges rows through matrix_pivot (or a routine that does)' if ok else
+               'a path returns a result without passing through matrix_pivot: with a tiny (non-zero) leading entry the factorisation divides by it and the computed '
+               'solution no longer satisfies A x = b (e.g. [[1e-20, 1], [1, 1]])', site(fi, marks[0] if marks else None))
+    if n < 1:
+        raise AnalysisError('PV5: no pivoting routine found')
+
+
 def check(m, run):
     sc1(m, run)
     from . import c09
@@ -180,6 +207,7 @@ def check(m, run):
     with run.corroborating(pv_ok, 'PV4', rules=('PV1.paired-swap', 'PV1.full-row-swap', 'PV1.permutation-starts-as-identity')):
         check_pivot(m, run, piv)
     pv2(m, run, piv)
+    pv5(m, run, piv)
     run.floor('PV2.pivot-companion', 3, 'matrix_inverse, matrix_determinant, lu_factor')
     # the LU kernels are decided exactly on symbolic matrices (LA3); the rule that reads how lu_factor spells the permutation corroborates
     from .. import skel_drivers as _sd
